@@ -19,12 +19,14 @@ registered / registered-multi, or the step after which the daemon's report diver
 """
 import gc
 import json
+import re
+import threading
 import weakref
 
 from ..world import World
 from .. import sched as S
 from .common import Server, SERIALIZERS
-from ..seams import CL
+from ..seams import CL, SV
 import Pyro5.errors as E
 from . import registry_objs as O
 
@@ -35,6 +37,24 @@ RET_SERS = ["serpent", "json", "msgpack"]
 LIT_IDS = ["id0", "id0", "id1", "id2"]
 TIMEOUT = 30.0
 NEVER = "never-registered"
+
+
+_CODES = None
+
+
+def _codes():
+    """code objects that get line pre-emption in plans with concurrent factory calls: everything a registration runs
+    through, found by name as well so that a new id helper of Daemon is monitored too"""
+    global _CODES
+    if _CODES is None:
+        fns = [SV.Daemon.register, SV.Daemon.unregister, SV.Daemon.uriFor, SV.Daemon.proxyFor]
+        pat = re.compile(r"(?i)object_?id|generat|registered")
+        for holder in (SV.Daemon, SV):
+            for name, v in sorted(vars(holder).items()):
+                if hasattr(v, "__code__") and pat.search(name) and v not in fns:
+                    fns.append(v)
+        _CODES = S.code_objects(*fns)
+    return _CODES
 
 
 class _Stop(Exception):
@@ -61,6 +81,9 @@ class _Run:
         self.taint_id = set()    # have refused): forced replacement of an id, forced second id of an object
         self.multi_x = set()     # objects that were registered under two or more ids at the same time
         self.last_mut = {}       # xkey -> last operation that changed this object's registrations (part of multi-id keys)
+        self.shapes = list(self.plan.get("shapes") or ["plain"] * 3)      # class of the object in each pool slot
+        self.made = {}           # tag -> Made: what the dispenser's factory method created (never unregistered)
+        self.made_by_id = {}     # MODEL of that separate namespace: generated id -> tag
         self.remote = 0
         self.accepted = 0
         self._ix, self._iids = [], []
@@ -115,7 +138,7 @@ class _Run:
 
     def fresh(self, slot):
         self.serial[slot] = self.next_serial
-        self.pool[slot] = O.PoolObj(self.next_serial, self.log)
+        self.pool[slot] = O.SHAPES[self.shapes[slot]](self.next_serial, self.log)
         self.next_serial += 1
 
     def xkey(self, x):
@@ -129,6 +152,17 @@ class _Run:
         if x[0] == "c":
             return O.CLASSES[x[1]]
         return self.dobj
+
+    def shape_probe(self, xk):
+        """a call / a returned proxy reached a pool object of a falsy shape"""
+        if xk[0] == "o":
+            for slot, ser in self.serial.items():
+                if ser == xk[1] and self.shapes[slot] != "plain":
+                    self.ctx.probe("shape_" + self.shapes[slot])
+
+    def listing(self):
+        """what registered() must report"""
+        return sorted(list(self.table) + list(RESERVED) + list(self.made_by_id))
 
     def ids_of(self, xk):
         return sorted(i for i, (x, _w) in self.table.items() if x == xk)
@@ -208,7 +242,7 @@ class _Run:
     def audit(self, label):
         """the daemon's own report must equal the model after every mutating step"""
         got = self.dobj.registered()
-        want = sorted(list(self.table) + list(RESERVED))
+        want = self.listing()
         if DAEMON_ID not in got or self.daemon.objectsById.get(DAEMON_ID) is not self.dobj:
             self.viol("daemon-object-lost", label, "after this step the daemon reports %r / serves %r under Pyro.Daemon"
                       % (sorted(got), type(self.daemon.objectsById.get(DAEMON_ID)).__name__))
@@ -481,7 +515,7 @@ class _Run:
             p._pyroRelease()
         self.settle()
         if target[0] == "d":
-            if out[0] != "ok" or sorted(out[1]) != sorted(list(self.table) + list(RESERVED)):
+            if out[0] != "ok" or sorted(out[1]) != self.listing():
                 self.viol("listing-mismatch", "via-proxyfor", "registered() through proxyFor(Pyro.Daemon) gave %r" % (out,))
             return
         self.check_routed("a call through proxyFor's proxy (id %r)" % got[1], target, out, self.log[n0:], "proxyfor-misrouted", st)
@@ -490,7 +524,7 @@ class _Run:
     def do_list(self, ser):
         self.involve(reset=True)
         out = self.remote_call(DAEMON_ID, ser, "registered")
-        want = sorted(list(self.table) + list(RESERVED))
+        want = self.listing()
         self.sched.ev("list", self.i, out[0])
         if out[0] == "ok":
             self.involve(ids=sorted(set(want) ^ set(out[1])))
@@ -532,6 +566,7 @@ class _Run:
                       % (oid, self.name(xk)))
         self.check_routed("a call to id %r" % oid, xk, out, new, "call-misrouted", "weak" if weak else "strong")
         ctx.probe("call_routed")
+        self.shape_probe(xk)
         if xk[0] == "c":
             ctx.probe("class_registered")
 
@@ -590,6 +625,7 @@ class _Run:
         self.check_routed("a call through the returned proxy (id %r)" % out[1], xk, out2, self.log[n0:], "returned-proxy-misrouted", st)
         ctx.probe("return_proxy")
         ctx.probe(ser)
+        self.shape_probe(xk)
 
     def describe(self, out):
         if out[0] == "proxy":
@@ -633,6 +669,86 @@ class _Run:
         self.fresh(k)
         self.audit("gc:" + ("weak" if ids else "unregistered"))
 
+    def do_par(self, op):
+        """2-3 clients (own threads, own proxies) call the dispenser's factory method at the same instant; each call
+        registers a brand-new object WITHOUT an id.  Every caller must get an id of its own that reaches its own object."""
+        ctx, sched = self.ctx, self.sched
+        self.involve(reset=True)
+        callers = op["callers"]
+        base = 1000 + 10 * self.i
+        res = [None] * len(callers)
+        pre0 = sched.preempts + sched.stalls
+
+        def client(j, spec):
+            out = ("crash", "?", "")
+            try:
+                p = self.proxy(DISP_ID, spec["ser"])
+                try:
+                    out = self.invoke(p, "make", (base + j, spec["mode"]))
+                    if out[0] == "ok":
+                        r = out[1]
+                        if isinstance(r, CL.Proxy):
+                            out = ("proxy", r._pyroUri.object, r._pyroUri.location)
+                        elif isinstance(r, str) and r.startswith("PYRO:") and "@" in r:
+                            out = ("uri",) + tuple(r[5:].split("@", 1))
+                        else:
+                            out = ("other", repr(r)[:200], "")
+                        del r
+                finally:
+                    p._pyroRelease()
+            except Exception as x:  # noqa - recorded as an outcome, never escapes the thread
+                out = ("crash", type(x).__name__, str(x)[:200])
+            res[j] = out
+
+        ths = [threading.Thread(target=client, args=(j, c), name="client%d" % j) for j, c in enumerate(callers)]
+        for t in ths:
+            t.start()
+        for t in ths:
+            t.join(600.0)
+        if any(sched.sim_thread_of(t).state != "done" for t in ths):
+            self.viol("make-hung", "par-make", "a factory call did not return within 600 virtual seconds: %r" % (res,))
+        sched.quiesce()
+        sched.ev("par", self.i, [r[0] for r in res])
+        what = lambda j: "caller %d (object tag %d, %s, %s)" % (j, base + j, callers[j]["mode"], callers[j]["ser"])  # noqa: E731
+        for j, r in enumerate(res):
+            if r[0] == "error" and r[1] == "DaemonError" and "already registered" in r[2]:
+                self.viol("generated-id-refused", "par-make", "%s: registering a brand-new object without an id was refused: %s"
+                          % (what(j), r[2]))
+            if r[0] in ("error", "comm", "crash", "unknown"):
+                self.viol("make-failed", "par-make:" + str(r[1] if len(r) > 1 else r[0]), "%s failed: %r" % (what(j), r))
+            if r[0] == "other" or (callers[j]["mode"] == "obj") != (r[0] == "proxy"):
+                self.viol("made-object-not-proxy", "par-make", "%s: the freshly registered object must arrive as a proxy (or its uri "
+                          "as a string); the client got %r" % (what(j), r))
+            if r[2] != self.loc:
+                self.viol("register-wrong-uri", "par-make", "%s got a uri at %r, the daemon is at %r" % (what(j), r[2], self.loc))
+        ids = [r[1] for r in res]
+        self.involve(ids=ids)
+        for j, i in enumerate(ids):
+            clash = [k for k in range(j) if ids[k] == i]
+            taken = i in self.table or i in RESERVED or i in self.made_by_id
+            if clash or taken:
+                self.viol("generated-ids-not-distinct", "par-make", "%s was given the id %r, which %s" % (
+                    what(j), i, "caller %d got as well" % clash[0] if clash else "is registered for something else already"))
+        for j, i in enumerate(ids):
+            self.made_by_id[i] = base + j
+        self.audit("par-make")
+        for j, i in enumerate(ids):
+            self.check_made(i, callers[j]["ser"])
+        ctx.probe("par_make")
+        if sched.preempts + sched.stalls > pre0:
+            ctx.probe("par_overlap")
+
+    def check_made(self, oid, ser):
+        tag = self.made_by_id[oid]
+        obj = self.made.get(tag)
+        if obj is None:
+            raise S.HarnessError("factory object %r not recorded" % (tag,))
+        n0 = obj.calls
+        out = self.remote_call(oid, ser)
+        if out != ("ok", ["made", tag]) or obj.calls != n0 + 1:
+            self.viol("made-object-misrouted", "par-make", "id %r was handed out for the factory object with tag %r; a call to it gave %r "
+                      "(that object saw %d call(s))" % (oid, tag, out, obj.calls - n0))
+
     # ------------------------------------------------------------------
     def run(self):
         ctx, plan = self.ctx, self.plan
@@ -646,8 +762,8 @@ class _Run:
         self.dobj = self.daemon.objectsById[DAEMON_ID]
         for slot in range(3):
             self.fresh(slot)
-        self.daemon.register(O.Dispenser(self.pool), DISP_ID)
-        steps = {"reg": self.do_reg, "unreg": self.do_unreg, "uri": self.do_uri, "proxy": self.do_proxy, "call": self.do_call,
+        self.daemon.register(O.Dispenser(self.pool, self.made), DISP_ID)
+        steps = {"par": self.do_par, "reg": self.do_reg, "unreg": self.do_unreg, "uri": self.do_uri, "proxy": self.do_proxy, "call": self.do_call,
                  "ret": self.do_ret, "gc": self.do_gc, "list": lambda op: self.do_list(op.get("ser", "serpent"))}
         for i, op in enumerate(plan["ops"]):
             self.i, self.op = i, op
@@ -677,6 +793,10 @@ class _Run:
         for c in range(2):
             self.i, self.op = base + 6 + c, {"op": "uri", "x": ["c", c], "sweep": True}
             self.do_uri(self.op)
+        for j, oid in enumerate(sorted(self.made_by_id, key=self.made_by_id.get)):
+            self.i, self.op = base + 8 + j, {"op": "call-made", "id": oid, "sweep": True}
+            self.involve([], [oid], reset=True)
+            self.check_made(oid, SERIALIZERS[j % 4])
 
 
 class RegistryWorld(World):
@@ -690,19 +810,26 @@ class RegistryWorld(World):
     STUB = ["sockets/selector (in-memory)", "threads (baton scheduler)", "time (virtual clock)", "uuid4 (seeded)"]
     PROBES = ["call_routed", "call_unknown", "return_proxy", "return_by_value", "unregister_by_id", "unregister_by_object",
               "weak_collected", "weak_collected_unknown", "duplicate_refused", "reserved_refused", "forced", "class_registered",
-              "generated_id", "registered_listing", "serpent", "json", "msgpack", "multiplex", "thread"]
+              "generated_id", "registered_listing", "serpent", "json", "msgpack", "multiplex", "thread",
+              "shape_len0", "shape_bool0", "shape_state", "par_make", "par_overlap"]
     RULE = ("plan = (server type, generator tier core|extended, 3-10 steps (thorough: -16) of register / unregister / uriFor / "
             "proxyFor / call / return-object / gc / registered over 3 pool objects + 2 classes + ids id0..id2, generated, "
             "colliding ('the current or last id of object k'), reserved; force only in the extended tier; weak for objects; "
             "serializer per remote step; 40% of the plans embed a directed motif - id re-use after an object lost it, forced "
             "replacement, forced second id - among random steps) followed by a fixed epilogue (listing, a call to every id ever seen, uriFor + return of every pool "
-            "object); distinct = distinct plan; non-trivial = a registration was accepted and a remote step ran")
+            "object, a call to every factory-made object); each pool slot holds a plain object or one that is falsy (always-empty "
+            "__len__, __bool__ False, or a __len__ that follows its state); 10% of the plans run on the thread server with "
+            "line pre-emption (p_line 0.1-0.4, optional stalls) inside Daemon.register & helpers and contain 1-2 'par' steps: "
+            "2-3 clients call the dispenser's factory method (register without id, return object or uri) at the same "
+            "instant; distinct = distinct plan; non-trivial = a registration was accepted and a remote step ran")
     ASSUMPTIONS = ["the id -> object table is the truth; marks on objects are not consulted",
                    "register(x, 'Pyro.Daemon', force=True) and any forced registration over the dispenser are not generated",
                    "unregistering something that is not registered may be refused or silently ignored; the table must not change",
                    "unregister(object) of an object registered under several ids (only possible with force) removes all of them",
                    "uriFor / proxyFor of an object with several ids may name any of them",
-                   "histories are sequential: registry operations never overlap remote calls",
+                   "histories are sequential except for 'par' steps, whose factory-made objects live in a namespace of their "
+                   "own (generated ids, never unregistered): the sequential model of the 3-slot pool is not touched by them",
+                   "a registered object's truth value / length has no bearing on any clause",
                    "pool objects' class is never itself registered as a class",
                    "the tier in a violation key is 'extended' iff an effective force (one that an unforced call would have refused) "
                    "was accepted earlier in the history"]
@@ -802,6 +929,9 @@ class RegistryWorld(World):
                            {"op": "reg", "x": ["o", a], "id": rng.choice(LIT_IDS + [None]), "force": False, "weak": False}])
         return seq + [look]
 
+    def line_codes(self, plan):
+        return _codes() if plan.get("par") and plan["servertype"] == "thread" else ()
+
     def gen(self, rng, tier):
         big = tier == "thorough"
         gtier = rng.choice(["core", "core", "extended", "extended", "extended"])
@@ -812,15 +942,41 @@ class RegistryWorld(World):
         else:
             n = rng.randint(3, 16 if big else 10)
             ops = [self._op(rng, gtier) for _ in range(n)]
-        return {"servertype": rng.choice(["thread", "multiplex"]), "gtier": gtier, "ops": ops, "sweep": True,
+        plan = {"servertype": rng.choice(["thread", "multiplex"]), "gtier": gtier, "ops": ops, "sweep": True,
                 "sweep_ser": [rng.choice(RET_SERS) for _ in range(3)],
                 "net": {"p_frag": rng.choice([0.0, 0.0, 0.3])}, "p_block": rng.choice([0.0, 0.0, 0.3])}
+        shapes = ["plain", "plain", "plain"]
+        if rng.random() < 0.5:
+            shapes = [rng.choice(["plain", "len0", "bool0", "state"]) for _ in range(3)]
+        plan["shapes"] = shapes
+        if rng.random() < 0.10:
+            # concurrent factory calls: thread server, line pre-emption inside the registration code
+            plan["par"] = True
+            plan["servertype"] = "thread"
+            plan["p_line"] = rng.choice([0.1, 0.2, 0.3, 0.4])
+            plan["p_stall"] = rng.choice([0.0, 0.0, 0.03])
+            plan["p_block"] = rng.choice([0.0, 0.3, 0.6])
+            del ops[5:]
+            for _ in range(rng.randint(1, 2)):
+                callers = [{"mode": rng.choice(["obj", "obj", "uri"]), "ser": rng.choice(RET_SERS)} for _ in range(rng.randint(2, 3))]
+                ops.insert(rng.randint(0, len(ops)), {"op": "par", "callers": callers})
+        return plan
 
     def simplify(self, plan):
         if plan.get("sweep"):
             yield dict(plan, sweep=False)
-        if plan["servertype"] != "multiplex":
+        if plan["servertype"] != "multiplex" and not plan.get("par"):
             yield dict(plan, servertype="multiplex")
+        if any(s != "plain" for s in plan.get("shapes") or ()):
+            yield dict(plan, shapes=["plain"] * 3)
+            for i, s in enumerate(plan["shapes"]):
+                if s != "plain":
+                    yield dict(plan, shapes=plan["shapes"][:i] + ["plain"] + plan["shapes"][i + 1:])
+        for i, op in enumerate(plan["ops"]):
+            if op["op"] == "par" and len(op["callers"]) > 2:
+                ops = list(plan["ops"])
+                ops[i] = dict(op, callers=op["callers"][:2])
+                yield dict(plan, ops=ops)
         if plan["net"].get("p_frag"):
             yield dict(plan, net=dict(plan["net"], p_frag=0.0))
         for i, op in enumerate(plan["ops"]):
